@@ -64,22 +64,35 @@ Wraps  == {  \* <<pre, head start (or <<>> when the head is an EmptyTag placed i
     <<<<HtmlS, HeadEm>>, <<>>, <<>>, <<BodyS, BodyE, HtmlE>>>>,
     <<<<HeadEmA>>, <<>>, <<>>, <<MetaC>>>> }
 
-VARIABLES hc, w
-vars == <<hc, w>>
-Stream == IF Mode = "layout" THEN w[1] \o w[2] \o (IF w[2] = <<>> THEN <<>> ELSE hc) \o w[3] \o w[4] ELSE hc
-Init == hc = <<>> /\ w \in (IF Mode = "layout" THEN Wraps ELSE {<<>>})
+\* the theorems of one stream, evaluated once per state (chk) with the stream, the machine's output and Dom shared
+Check(stream) ==
+    LET d   == Dom(stream)
+        out == ImFilter(stream, Enc)
+        fin == ImFinal(ImInit, stream, Enc)
+    IN [dom      |-> d,
+        out      |-> out,
+        refines  |-> (d => out = Exp(stream, Enc)),
+        property |-> (d => Property(stream, out, Enc)),
+        queue    |-> ((fin.state = "in_head") <=> (fin.pending # <<>>)),
+        lost     |-> (d => fin.pending = <<>> /\ fin.found),
+        idem     |-> (d => ImFilter(out, Enc) = out)]
+
+VARIABLES hc, w, chk
+vars == <<hc, w, chk>>
+StreamOf(h, ww) == IF Mode = "layout" THEN ww[1] \o ww[2] \o (IF ww[2] = <<>> THEN <<>> ELSE h) \o ww[3] \o ww[4] ELSE h
+Stream == StreamOf(hc, w)
+Init == /\ hc = <<>> /\ w \in (IF Mode = "layout" THEN Wraps ELSE {<<>>})
+        /\ chk = Check(StreamOf(hc, w))
 Next == /\ Len(hc) < MaxLen /\ UNCHANGED w
         /\ (Mode = "layout" => w[2] # <<>>)
         /\ \E tok \in (IF Mode = "layout" THEN InHead ELSE Free) : hc' = Append(hc, tok)
+        /\ chk' = Check(StreamOf(hc', w))
 
-Out == ImFilter(Stream, Enc)
-Fin == ImFinal(ImInit, Stream, Enc)
-\* balanced with respect to head-named tags
-ThmInDomain    == Mode = "layout" => Dom(Stream)
-ThmRefines     == Dom(Stream) => Out = Exp(Stream, Enc)
-ThmProperty    == Dom(Stream) => Property(Stream, Out, Enc)
-ThmQueue       == (Fin.state = "in_head") <=> (Fin.pending # <<>>)
-ThmNothingLost == Dom(Stream) => Fin.pending = <<>> /\ Fin.found
-ThmIdempotent  == Dom(Stream) => ImFilter(Out, Enc) = Out
-ThmExport      == Export => PrintT(ToJson([inp |-> Stream, enc |-> Enc, out |-> Out, dom |-> Dom(Stream)]))
+ThmInDomain    == Mode = "layout" => chk.dom
+ThmRefines     == chk.refines            \* Dom(Stream) => ImFilter(Stream) = Exp(Stream)
+ThmProperty    == chk.property           \* Dom(Stream) => Declares /\ NoConflict /\ OthersUnchanged /\ MetasAligned
+ThmQueue       == chk.queue              \* in_head  <=>  pending queue non-empty
+ThmNothingLost == chk.lost               \* Dom(Stream) => queue flushed and a declaration accounted for
+ThmIdempotent  == chk.idem               \* Dom(Stream) => filtering the output again changes nothing
+ThmExport      == Export => PrintT(ToJson([inp |-> Stream, enc |-> Enc, out |-> chk.out, dom |-> chk.dom]))
 =============================================================================
